@@ -99,6 +99,23 @@ func implC10(line string) (out string) {
 	if f[0] == "xr" {
 		return implReceiver(vm, f)
 	}
+	if f[0] == "xf" { // xf <nw|fr> <pat> <flags> <subj>: lastIndex not writable, replace with a counting function
+		vm.Set("P", unhex(f[2]))
+		vm.Set("FL", unhex(f[3]))
+		vm.Set("S", unhex(f[4]))
+		if _, err := vm.Run("var re = new RegExp(P, FL)"); err != nil {
+			return errTok(err)
+		}
+		lock := `Object.defineProperty(re, "lastIndex", {writable: false})`
+		if f[1] == "fr" {
+			lock = "Object.freeze(re)"
+		}
+		v, err := vm.Run(lock + `; var calls = 0, tok; try { tok = res(S.replace(re, function(){ calls++; return "-" })) } catch (e) { tok = "throw:" + e.name }; tok + "|calls:" + calls + "|li:" + li(re.lastIndex)`)
+		if err != nil {
+			return "throw-xf"
+		}
+		return v.String()
+	}
 	prefix := ""
 	if f[0] == "xc" { // a RegExp built from the RegExp R0 = new RegExp(P, FL)
 		mode := f[1]
@@ -161,6 +178,8 @@ func runStepsOn(vm *otto.Otto, steps string, recv bool) string {
 				src = sp + "replace.call(R, re, F)"
 			case st == "rT":
 				src = sp + "replace.call(R, re, T)"
+			case cbSrc(st, "V") != "":
+				src = sp + "replace.call(R, re, " + cbSrc(st, "V") + ")"
 			case strings.HasPrefix(st, "rS:"):
 				vm.Set("RV", unhex(st[3:]))
 				src = sp + "replace.call(R, re, RV)"
@@ -178,7 +197,7 @@ func runStepsOn(vm *otto.Otto, steps string, recv bool) string {
 			}
 			v, err := vm.Run("res(" + src + ")+'@'+li(re.lastIndex)")
 			if err != nil {
-				parts = append(parts, "throw")
+				parts = append(parts, throwTok(vm))
 				continue
 			}
 			parts = append(parts, v.String())
@@ -198,6 +217,8 @@ func runStepsOn(vm *otto.Otto, steps string, recv bool) string {
 		case st == "rT":
 			vm.Set("V", unhex(""))
 			src = "(V = S, S.replace(re, T))"
+		case cbSrc(st, "S") != "":
+			src = "S.replace(re, " + cbSrc(st, "S") + ")"
 		case strings.HasPrefix(st, "rS:"):
 			vm.Set("R", unhex(st[3:]))
 			src = "S.replace(re, R)"
@@ -215,7 +236,7 @@ func runStepsOn(vm *otto.Otto, steps string, recv bool) string {
 		}
 		v, err := vm.Run("res(" + src + ")+'@'+li(re.lastIndex)")
 		if err != nil {
-			parts = append(parts, "throw")
+			parts = append(parts, throwTok(vm))
 			continue
 		}
 		parts = append(parts, v.String())
@@ -276,6 +297,30 @@ func implReceiver(vm *otto.Otto, f []string) string {
 		return "throw-cnt"
 	}
 	return h + "|conv:" + v.String()
+}
+
+// throwTok: a step threw; the lastIndex it left behind is still observed
+func throwTok(vm *otto.Otto) string {
+	v, err := vm.Run("li(re.lastIndex)")
+	if err != nil {
+		return "throw@?"
+	}
+	return "throw@" + v.String()
+}
+
+// cbSrc: the function replacers that look at the regexp itself (subj = the JS expression of the subject)
+func cbSrc(st, subj string) string {
+	switch {
+	case st == "rL":
+		return `function(){ return "<" + li(re.lastIndex) + ">" }`
+	case strings.HasPrefix(st, "rW:"):
+		return `function(){ re.lastIndex = ` + liJS(st[3:]) + `; return "" }`
+	case st == "rE":
+		return `function(){ var m = re.exec(` + subj + `); return "<" + (m === null ? "n" : "m" + m.index) + "@" + li(re.lastIndex) + ">" }`
+	case st == "rX":
+		return `function(){ throw new Error("x") }`
+	}
+	return ""
 }
 
 // errTok names the class of a thrown error: throw:SyntaxError, throw:TypeError, …
@@ -545,6 +590,9 @@ func (g *gen) step() string {
 		if g.r.Chance(30) {
 			return "rT"
 		}
+		if g.r.Chance(45) { // replacers that read / write lastIndex, exec the same regexp, throw
+			return g.pick([]string{"rL", "rL", "rE", "rE", "rX", "rW:" + g.pick(liVals)})
+		}
 		return "rF"
 	case 9:
 		if g.r.Chance(50) {
@@ -641,6 +689,26 @@ func genC10(c *h.Ctx) {
 				st[j] = g.step()
 			}
 			c.Add("xc "+g.pick([]string{"n", "n", "u", "f", "e", "c"})+" "+hexTok(g.pattern())+" "+hexTok(g.flags())+" "+hexTok(g.subject())+" "+strings.Join(st, ","), "xc:random")
+		}
+	}
+	// replacers that look at the regexp itself: lastIndex seen / written inside each call, exec on the same
+	// regexp, a throwing replacer – after a stale lastIndex was planted
+	for _, p := range []string{"a", "a|b", "(a)(b)?", "x", "b*", "^a", "."} {
+		for _, fl := range []string{"", "g", "gi", "m"} {
+			for _, s := range []string{"aaba", "ab", "", "xaax"} {
+				for _, st := range []string{"L:i3,rL", "L:i3,rE", "L:i2,rX,e", "L:i3,rW:i1,e", "L:i1,rE,rL", "e,rL,e", "rW:i2", "L:i3,rW:nan", "e,e,rX,rL", "L:i3,m,rE"} {
+					c.Add("x "+hexTok(p)+" "+hexTok(fl)+" "+hexTok(s)+" "+st, "x:callback")
+				}
+			}
+		}
+	}
+	for _, p := range []string{"a", "a|b", "(a)(b)?", "x", "b*", "."} {
+		for _, fl := range []string{"", "g", "gi", "i", "gm"} {
+			for _, s := range []string{"aaba", "ab", "", "xaax"} {
+				for _, mode := range []string{"nw", "fr"} {
+					c.Add("xf "+mode+" "+hexTok(p)+" "+hexTok(fl)+" "+hexTok(s), "xf:"+mode)
+				}
+			}
 		}
 	}
 	// the receiver dimension: String methods through .call on String objects, numbers, booleans and objects
